@@ -82,11 +82,16 @@ func ReadPacket(r io.Reader) (pkt pkts.Packet, err error) {
 	if err := h.Unpack(rawPacket); err != nil {
 		return nil, err
 	}
+	// The body is everything after the header actually present in the
+	// datagram. The Length field is not trusted: re-encoding a decoded
+	// packet must not reproduce a Length which differs from the real size.
+	headerLength := pkts.EncodedHeaderLength(rawPacket)
+	h.SetVarPartLength(uint16(n) - headerLength)
 	pkt, err = NewPacketWithHeader(h)
 	if err != nil {
 		return nil, err
 	}
-	if err := pkt.Unpack(rawPacket[pkts.EncodedHeaderLength(rawPacket):]); err != nil {
+	if err := pkt.Unpack(rawPacket[headerLength:]); err != nil {
 		return nil, err
 	}
 
